@@ -19,7 +19,7 @@ def run(ctx):
     fam = ctx.tlc_family("FamC01", constants={"Tier": '"%s"' % ctx.tier})
     ctx.exhaustive["FamC01"] = True
     failures = progflow.judge(ctx, fam, "fam", require_defined=False)
-    n = 150 if ctx.tier == "quick" else 2000
+    n = 400 if ctx.tier == "quick" else 3000
     gen = progflow.generate(ctx, "scalar", n)
     failures += progflow.judge(ctx, gen, "gen")
     failures += corpus.judge(ctx, "C01")
